@@ -27,6 +27,8 @@ def c14_case(draw):
             a['r'] = [[0.0] * c['n'] for _ in range(k)]
             a['r0'] = [bound + draw(st.sampled_from([1.0, 2.0]))] * k
     c['order'] = draw(st.integers(0, 2))
+    # the model is solved, given one more (slack) constraint and solved again before dual() is read
+    c['resolve'] = draw(st.integers(0, 2)) == 0
     return c
 
 
@@ -69,6 +71,19 @@ class C14(Prop):
             if sol is None or sol.x is None or np.isnan(sol.objval) or 'lose' in str(sol.status):
                 labels.append('unsolved:' + name)
                 continue
+            if case.get('resolve'):
+                # a constraint that is strictly slack at the optimum (multiplier 0): the certificate over the other constraints
+                # must still close after the second compilation
+                xs = np.asarray(x.get(), dtype=float).ravel()
+                m.st(np.ones(n) @ x <= float(np.ceil(xs.sum())) + 10.0)
+                with quiet():
+                    m.solve(solver, display=False)
+                sol = m.solution
+                if sol is None or sol.x is None or np.isnan(sol.objval) or 'lose' in str(sol.status):
+                    labels.append('unsolved:' + name)
+                    continue
+                if 'resolved' not in labels:
+                    labels.append('resolved')
             opt = m.get()
             tol = 1e-5 if name == 'ecos' else 1e-6
             grad = np.zeros(n)
